@@ -459,8 +459,10 @@ class Encoder(object):
         if ext:
             for a in additions:
                 if isinstance(a, asn.Group):
-                    names = [m.name for m in a.members]
-                    if any(nm in v for nm in names):
+                    # the group is there if one of its components is: a component that is absent, or has its DEFAULT
+                    # value (never encoded for the simple types, X.691 19.5), does not make it present
+                    if any(m.name in v and not (m.has_default and self.is_default(m, r.mod, v[m.name]))
+                           for m in a.members):
                         # a group is a SEQUENCE of its members (19.9)
                         ww = self.new()
                         self.member_list(ww, a.members, r.mod, v)
